@@ -185,5 +185,48 @@ theorem add_keeps_groups_valid {s s' : Snap} {n syn : Node} {f2o : SlotMap} {dat
     simp only [beq_self_eq_true, if_true]
     exact (addAll_generators (permsOK_valid hperms)).1
 
+/-! ## the node half, first part: what the new class stores is the weak shape of a node, and its slot list ascends strictly -/
+
+theorem sortedStrict_keys : ∀ (m : SlotMap), wfb m = true → sortedStrict (keys m) = true
+  | [], _ => rfl
+  | [_], _ => rfl
+  | a :: b :: t, h => by
+    simp only [wfb, Bool.and_eq_true, decide_eq_true_eq] at h
+    simp only [keys, List.map_cons, sortedStrict, Bool.and_eq_true, decide_eq_true_eq]
+    exact ⟨h.1, sortedStrict_keys (b :: t) h.2⟩
+
+/-- the stored entry of the new class is `weakShape` of some node -/
+theorem addNew_stored {s s' : Snap} {n syn : Node} {f2o : SlotMap} {data : String} {a : AppId}
+    (h : addNew s n f2o syn data = some (s', a)) :
+    ∃ (n1 : Node) (perms : List Perm),
+      s' = setNew (allocClass s (keys f2o) syn data) s.uf.length (Node.weakShape n1)
+        (Grp.generators (addAll (Grp.mk (identity (keys f2o)) []) perms)) := by
+  unfold addNew at h
+  split at h
+  · simp at h
+  · split at h
+    · simp at h
+    · split at h
+      · simp at h
+      · split at h
+        · simp at h
+        · dsimp only at h
+          split at h
+          · rename_i sh2 bij2 n1 hsh hpre
+            split at h
+            · simp at h
+            · split at h
+              · simp at h
+              · split at h
+                · simp at h
+                · simp only [Option.some.injEq, Prod.mk.injEq] at h
+                  refine ⟨n1, selfSyms (allocClass s (keys f2o) syn data) n1, ?_⟩
+                  unfold shape at hsh
+                  rw [hpre] at hsh
+                  simp only [Option.map_some, Option.some.injEq] at hsh
+                  rw [hsh]
+                  exact h.1.symm
+          · simp at h
+
 end Snap
 end SV
